@@ -4,11 +4,15 @@ import json, glob, os
 rows=[]
 for m in sorted(glob.glob('/verif/seeded/*/meta.json')):
     d=json.load(open(m)); name=os.path.basename(os.path.dirname(m))
-    missed = 'missed' in d['caught_by'].lower() or 'not visible' in d['caught_by'].lower() or 'first' in d['caught_by'].lower()
+    missed = 'missed' in d['caught_by'].lower() or 'not caught' in d['caught_by'].lower() or 'not visible' in d['caught_by'].lower() or 'first' in d['caught_by'].lower()
     rows.append((name, d['property'], d['needs_to_manifest'], d['caught_by'], missed))
 print("| seeded change | needs | result |")
 print("|---|---|---|")
 for name,prop,needs,caught,missed in rows:
     print(f"| `{name}` | {needs} | {caught} |")
 print()
+never=[r[0] for r in rows if r[3].startswith('NOT caught')]
 print(f"{len(rows)} seeded changes; {sum(1 for r in rows if not r[4])} caught by the checks as they stood when the change arrived, {sum(1 for r in rows if r[4])} missed (or mis-reported) at first and caught after the check was strengthened as described.")
+if never:
+    print()
+    print("Not caught by any check: " + ", ".join(f"`{n}`" for n in never) + " (reason in the table).")
